@@ -43,3 +43,31 @@ func init() {
 		},
 	})
 }
+
+// ProbeHistory: a short history on the standard chain in which every third transaction is a rollback probe
+// (a holder's state change + a reader + a failing message, rolled back) followed by the requests whose outcome
+// would differ had the change leaked; the rest is ordinary hostile traffic. Used as a common tail by the
+// focused checks so that state kept outside the store (caches, in-place mutated buffers) is exercised under
+// every property's monitors.
+func ProbeHistory(rc *RunCtx, n int, double bool) {
+	e, err := StdEngine(rc, double, false, nil)
+	if err != nil {
+		rc.Cov.Inconclusive("probe history: " + err.Error())
+		return
+	}
+	g := NewGen(e)
+	for i := 0; i < n; i++ {
+		var tx Tx
+		if i%3 == 0 && len(g.queue) == 0 {
+			tx = g.RollbackProbe()
+		} else {
+			tx = g.Next()
+		}
+		rep := e.Exec(tx)
+		g.Learn(tx, rep)
+		if i%50 == 49 {
+			e.Simulate(g.RollbackProbeFirstOnly())
+		}
+	}
+	rc.Cov.Cell("env_actions", "probe-history")
+}
